@@ -171,4 +171,60 @@ theorem dependent_resp_stack (cfg : Cfg) (hd : cfg.independent = false) :
   simpa using hxr
 
 #print axioms dependent_resp_stack
+
+/-! ### request / resource loops: top-down, stopping right after the first completion or raise -/
+
+/-- indices called when methods run in list order up to and including the first one that does not simply return -/
+def uptoStop : List (Nat × Act) → List Nat
+  | [] => []
+  | (i, a) :: rest => match a with
+    | .ret => i :: uptoStop rest
+    | _ => [i]
+
+def reqs (cs : List (Nat × Comp)) : List (Nat × Act) := cs.filterMap fun p => p.2.req.map (p.1, ·)
+def rsrcs (cs : List (Nat × Comp)) : List (Nat × Act) := cs.filterMap fun p => p.2.rsrc.map (p.1, ·)
+
+/-- the independent request loop calls `process_request` in registration order and stops right after the first
+    one that completes or raises -/
+theorem reqIndep_topdown : ∀ (cs : List (Nat × Comp)), (reqIndep cs).1 = (uptoStop (reqs cs)).map Call.req := by
+  intro cs
+  induction cs with
+  | nil => simp [reqIndep, reqs, uptoStop]
+  | cons x xs ih =>
+    obtain ⟨i, c⟩ := x
+    simp only [reqs] at ih ⊢
+    cases hr : c.req with
+    | none => simp [reqIndep, hr, ih]
+    | some a => cases a <;> simp [reqIndep, hr, ih, uptoStop]
+
+/-- the resource loop calls `process_resource` in registration order and stops right after the first one that
+    completes or raises -/
+theorem rsrcLoop_topdown : ∀ (cs : List (Nat × Comp)), (rsrcLoop cs).1 = (uptoStop (rsrcs cs)).map Call.rsrc := by
+  intro cs
+  induction cs with
+  | nil => simp [rsrcLoop, rsrcs, uptoStop]
+  | cons x xs ih =>
+    obtain ⟨i, c⟩ := x
+    simp only [rsrcs] at ih ⊢
+    cases hr : c.rsrc with
+    | none => simp [rsrcLoop, hr, ih]
+    | some a => cases a <;> simp [rsrcLoop, hr, ih, uptoStop]
+
+/-- the first `process_response` call of the response loop carries the flags the loop was started with
+    (`resource is not None`, and `req_succeeded` = nothing raised before the loop) -/
+theorem first_resp_flag (cs : List (Nat × Comp)) (hasRes : Bool) : ∀ (order : List Nat) (succ : Bool),
+    match (respLoop cs order hasRes succ).head? with
+    | some (.resp _ h s) => h = hasRes ∧ s = succ
+    | some _ => False
+    | none => True := by
+  intro order
+  induction order with
+  | nil => intro succ; simp [respLoop]
+  | cons i rest ih =>
+    intro succ
+    rw [respLoop]
+    cases h : (cs.find? (·.1 == i)).bind (·.2.resp) with
+    | none => simpa [h] using ih succ
+    | some a => simp [h]
+
 end Pl
